@@ -195,6 +195,20 @@ func c04Writers(c *eng.Ctx, r *eng.Report) {
 			key := "write:" + field + "<-" + name
 			seen[field+"|"+name] = true
 			cls, ok := writerTable[field][name]
+			if !ok && !token.IsExported(fn.Name()) {
+				// a private helper every caller of which is a reviewed revert/lifecycle writer of this field is
+				// part of that writer (the truncation of RevertToSnapshot, extracted)
+				callers := c.Callers(fn)
+				inherited := len(callers) > 0
+				for _, cs := range callers {
+					pc := writerTable[field][eng.FuncName(cs.Fn)]
+					if !strings.HasPrefix(pc, "revert") && !strings.HasPrefix(pc, "lifecycle") {
+						inherited = false
+					}
+					cls = pc + ", through its helper"
+				}
+				ok = inherited
+			}
 			r.Check(ok, rule, key, c.Pos(pos), "reviewed writer ("+cls+")", name+" writes journaled field "+field+" but is not in the reviewed writer table: a mutation the journal cannot undo (or an undo/lifecycle path that now changes more than it should)")
 		}
 	}
@@ -725,9 +739,28 @@ func c04Revert(c *eng.Ctx, r *eng.Report) {
 		return
 	}
 	var undoCall *ssa.Call
-	for _, s := range eng.Sites(rev) {
-		if s.Common().IsInvoke() && s.Common().Method.Name() == "undo" {
-			undoCall, _ = s.Instr.(*ssa.Call)
+	loopFn := rev
+	var helperCall *ssa.Call // rev's call of the private helper that holds the loop, if it was extracted
+	findUndo := func(fn *ssa.Function) *ssa.Call {
+		var out *ssa.Call
+		for _, s := range eng.Sites(fn) {
+			if s.Common().IsInvoke() && s.Common().Method.Name() == "undo" {
+				out, _ = s.Instr.(*ssa.Call)
+			}
+		}
+		return out
+	}
+	undoCall = findUndo(rev)
+	if undoCall == nil {
+		for _, s := range eng.Sites(rev) {
+			h := s.Static()
+			call, isCall := s.Instr.(*ssa.Call)
+			if h == nil || !isCall || h.Pkg != rev.Pkg || h.Blocks == nil || token.IsExported(h.Name()) || len(c.Callers(h)) != 1 {
+				continue
+			}
+			if u := findUndo(h); u != nil {
+				undoCall, loopFn, helperCall = u, h, call
+			}
 		}
 	}
 	if undoCall == nil {
@@ -765,24 +798,38 @@ func c04Revert(c *eng.Ctx, r *eng.Report) {
 	}
 	r.Check(okInit && okStep && okCond, rule, "RevertToSnapshot:loop", c.Pos(undoCall.Pos()), "entries are undone for i = len-1 … snapshot (inclusive), newest first",
 		fmt.Sprintf("undo loop shape changed (starts at len-1=%v, steps by -1=%v, runs while i >= snapshot=%v): entries are skipped or undone in the wrong order", okInit, okStep, okCond))
+	bound := snapshot // as RevertToSnapshot sees it
+	if prm, isP := snapshot.(*ssa.Parameter); isP && helperCall != nil {
+		for i, q := range loopFn.Params {
+			if q == prm && i < len(helperCall.Call.Args) {
+				bound = helperCall.Call.Args[i]
+			}
+		}
+	}
 	if snapshot != nil {
-		r.Check(strings.HasSuffix(eng.Desc(snapshot), ".journalIndex"), rule, "RevertToSnapshot:bound", c.Pos(undoCall.Pos()), "loop bound is the revision's journalIndex", "loop bound is not the revision's journalIndex: "+eng.Desc(snapshot))
+		r.Check(strings.HasSuffix(eng.Desc(bound), ".journalIndex"), rule, "RevertToSnapshot:bound", c.Pos(undoCall.Pos()), "loop bound is the revision's journalIndex", "loop bound is not the revision's journalIndex: "+eng.Desc(bound))
 	}
 	// truncations
 	truncJ, truncR := false, false
-	for _, b := range rev.Blocks {
-		for _, in := range b.Instrs {
-			st, ok := in.(*ssa.Store)
-			if !ok {
-				continue
-			}
-			_, f := eng.FieldOf(st.Addr)
-			if sl, ok := st.Val.(*ssa.Slice); ok && sl.Low == nil && sl.High != nil {
-				if f == "transitions" && snapshot != nil && sl.High == snapshot {
-					truncJ = true
+	scope := []*ssa.Function{rev}
+	if loopFn != rev {
+		scope = append(scope, loopFn)
+	}
+	for _, fn := range scope {
+		for _, b := range fn.Blocks {
+			for _, in := range b.Instrs {
+				st, ok := in.(*ssa.Store)
+				if !ok {
+					continue
 				}
-				if f == "validRevisions" {
-					truncR = true
+				_, f := eng.FieldOf(st.Addr)
+				if sl, ok := st.Val.(*ssa.Slice); ok && sl.Low == nil && sl.High != nil {
+					if f == "transitions" && snapshot != nil && (sl.High == snapshot || fn == rev && sl.High == bound) {
+						truncJ = true
+					}
+					if f == "validRevisions" {
+						truncR = true
+					}
 				}
 			}
 		}
